@@ -2,6 +2,7 @@ import CssVerif.Lemmas.Tok
 import CssVerif.Lemmas.TokLex
 import CssVerif.Lemmas.TokDet
 import CssVerif.Lemmas.TokAppend
+import CssVerif.Lemmas.TokLex2
 /-!
 # C05 — tokenizer: total, lossless, position-accurate, classifies by the grammar
 
@@ -347,6 +348,109 @@ example : (tokenize [97, 98, 32, 123, 32, 49, 50, 32, 125] false true).tokens.ma
 example : expected [Lex.pct 53 [48], .dim 49 [] 112 [120], .hash 102 [48, 48]] =
     [("PERCENTAGE", [53, 48, 37]), ("S", [32]), ("DIMENSION", [49, 112, 120]), ("S", [32]),
      ("HASH", [35, 102, 48, 48])] := by decide
+
+/-! ## T5.6 for the remaining classes: S, CDC, COMMENT, STRING, INVALID, FUNCTION, URI, UNICODE-RANGE
+
+`Lex2` (Lemmas/TokLex2.lean) adds to `Lex`: STRING (quote `"` or `'`, a body without backslash, line break or the
+delimiter — the other quote may occur —, the same quote), FUNCTION (plain identifier other than `and` in any letter
+case, `(`), URI (`url(` in any letter case, an unquoted body of printable ASCII other than quotes, `)`, backslash and
+white space, `)`), UNICODE-RANGE (`U+`/`u+`, one to six hex digits or `?`), COMMENT (`/*`, a body without `*`, `*/`)
+and CDC. `render2` joins the lexemes with single spaces; `expectedAll` lists (type, value) with an S token between
+neighbours; a COMMENT token is not yielded when comments are off. S (any run of white space) and INVALID (which a
+space does not end) have class theorems of their own.
+Still on the classification oracle only: lexemes with escapes, non-ASCII code points, signed / fractional numbers,
+identifiers that start with `-`, `u`, `U`, quoted URLs, comment bodies that contain `*`, UNICODE-RANGE intervals. -/
+
+/-- **T5.6 for all token classes** (plain lexemes): a text produced from grammar tokens of the classes NUMBER,
+PERCENTAGE, DIMENSION, HASH, IDENT, ATKEYWORD incl. the reserved at-rules, the match operators, CDO, CDC, the
+single-character tokens, STRING, FUNCTION, URI, UNICODE-RANGE and COMMENT, separated by single spaces, is recovered
+with exactly those token types and values and an S token between neighbours; with comments off the COMMENT tokens are
+left out and nothing else changes. -/
+theorem lexeme_separation_all (doC : Bool) (ts : List Lex2) (h : ∀ t ∈ ts, t.WF)
+    (hcs : hasAt (render2 ts) charsetStart = false) :
+    (tokenize (render2 ts) false doC).tokens.map proj =
+      (expectedAll ts).filter (fun p => doC || p.1 != "COMMENT") :=
+  tokenize_lexemes2 doC ts h hcs
+
+/-- S: a run of white space (tab, CR, LF, FF, space) up to the end of the text or a code point that is not white
+space -/
+theorem s_class (doC : Bool) (c : Nat) (cs next : Cps) (hc : isWsC c = true) (hcs : ∀ x ∈ cs, isWsC x = true)
+    (hn : HeadIn (fun x => isWsC x = false) next) :
+    scan false doC (c :: cs ++ next) productions = .hit "S" (c :: cs).length :=
+  scan_ws doC c cs next hc hcs hn
+
+/-- CDC, whatever follows (IDENT, FUNCTION and the number productions, which may start with `-`, do not match) -/
+theorem cdc_class (doC : Bool) (rest : Cps) : scan false doC ([45, 45, 62] ++ rest) productions = .hit "CDC" 3 :=
+  scan_cdc doC rest
+
+/-- COMMENT with a body without `*`, whatever follows -/
+theorem comment_class_partial (doC : Bool) (body rest : Cps) (hb : ∀ x ∈ body, x ≠ 42) :
+    scan false doC (47 :: 42 :: body ++ 42 :: 47 :: rest) productions = .hit "COMMENT" (body.length + 4) :=
+  scan_comment_plain doC body rest hb
+/- Full statement: the same for every body that does not contain `*/` (and does not end with `*` … the closing
+   delimiter is the first `*/` after the opening one). Missing: the induction over the `([^/*][^*]*\*+)*` group. -/
+
+/-- STRING with a body without backslash, whatever follows -/
+theorem string_class_partial (doC : Bool) (q : Nat) (hq : q = 34 ∨ q = 39) (body rest : Cps)
+    (hb : ∀ x ∈ body, ordinary q x = true) :
+    scan false doC (q :: body ++ q :: rest) productions = .hit "STRING" (body.length + 2) :=
+  scan_string_plain doC q hq body rest hb
+/- Full statement: the same for every body made of ordinary code points, escapes and line continuations
+   (`itemLens`); missing: the greedy-path induction over such bodies. -/
+
+/-- INVALID: an unterminated string (body without backslash) up to the end of the text or a line break; STRING does
+not match there -/
+theorem invalid_class_partial (doC : Bool) (q : Nat) (hq : q = 34 ∨ q = 39) (body stop : Cps)
+    (hb : ∀ x ∈ body, ordinary q x = true) (hs : InvStop stop) :
+    scan false doC (q :: body ++ stop) productions = .hit "INVALID" (body.length + 1) :=
+  scan_invalid_plain doC q hq body stop hb hs
+
+/-- FUNCTION: a plain identifier other than `and` directly followed by `(`, whatever follows: IDENT matches first
+and is skipped, FUNCTION takes over -/
+theorem function_class (doC : Bool) (c : Nat) (cs rest : Cps) (hc : inR identStart c = true)
+    (hcs : ∀ x ∈ cs, inR identRest x = true) (hand : pyLower (c :: cs) ≠ andWord) :
+    scan false doC (c :: cs ++ 40 :: rest) productions = .hit "FUNCTION" ((c :: cs).length + 1) :=
+  scan_function doC c cs rest hc hcs hand
+
+/-- wherever IDENT matches and `(` follows, FUNCTION matches the identifier and the parenthesis — for every text -/
+theorem function_takes_over (s : Cps) (l : Nat) (h : reIDENT.first s = some l) (h40 : s[l]? = some 40) :
+    reFUNCTION.first s = some (l + 1) :=
+  function_after_ident s l h h40
+
+/-- URI, unquoted with a plain body, whatever follows -/
+theorem uri_class_partial (doC : Bool) (u r l : Nat) (hu : IsU u) (hr : IsR r) (hl : IsL l) (body rest : Cps)
+    (hb : ∀ x ∈ body, inR uriPlain x = true) :
+    scan false doC (u :: r :: l :: 40 :: (body ++ 41 :: rest)) productions = .hit "URI" (body.length + 5) :=
+  scan_uri_plain doC u r l hu hr hl body rest hb
+
+/-- UNICODE-RANGE (single range) followed by the end of the text or a space; URI does not match there -/
+theorem unicode_range_class_partial (doC : Bool) (u h : Nat) (hs stop : Cps) (hu : IsU u)
+    (hh : ∀ x ∈ h :: hs, inR hexq x = true) (hlen : (h :: hs).length ≤ 6) (hst : Sep stop) :
+    scan false doC (u :: 43 :: (h :: hs ++ stop)) productions = .hit "UNICODE-RANGE" ((h :: hs).length + 2) :=
+  scan_urange doC u h hs stop hu hh hlen hst
+
+/-- the hypotheses are satisfiable: `"a'b" f( url(x.png) U+2?? /* c */ --> ab` -/
+example : ∀ t ∈ [Lex2.str 34 [97, 39, 98], .fn 102 [], .uri 117 114 108 [120, 46, 112, 110, 103],
+    .urange 85 50 [63, 63], .cmt [32, 99, 32], .cdc, .old (.ident 97 [98])], t.WF := by
+  intro t ht
+  simp only [List.mem_cons, List.mem_nil_iff, or_false] at ht
+  rcases ht with rfl | rfl | rfl | rfl | rfl | rfl | rfl <;> simp only [Lex2.WF, Lex.WF, IsU, IsR, IsL] <;> decide
+
+example : render2 [Lex2.str 34 [97], .cmt [99], .cdc] = [34, 97, 34, 32, 47, 42, 99, 42, 47, 32, 45, 45, 62] := by
+  decide
+
+/-- with comments off the COMMENT token is left out and the S tokens on both sides stay -/
+example : (expectedAll [Lex2.str 34 [97], .cmt [99], .cdc]).filter (fun p => false || p.1 != "COMMENT") =
+    [("STRING", [34, 97, 34]), ("S", [32]), ("S", [32]), ("CDC", [45, 45, 62])] := by decide
+
+example : (tokenize [34, 97, 34, 32, 47, 42, 99, 42, 47, 32, 45, 45, 62] false false).tokens.map proj =
+    [("STRING", [34, 97, 34]), ("S", [32]), ("S", [32]), ("CDC", [45, 45, 62])] := by decide +kernel
+
+/-- `and(` is not a FUNCTION: IDENT `and`, then `(` -/
+example : (tokenize [65, 110, 68, 40] false true).tokens.map proj = [("IDENT", [65, 110, 68]), ("CHAR", [40])] := by
+  decide +kernel
+
+example : InvStop [10, 97] ∧ InvStop [] := ⟨Or.inr ⟨10, [97], rfl, by decide⟩, Or.inl rfl⟩
 
 /-! ## T5.7 locality: a match never depends on what follows its end; append and cut
 
